@@ -1,4 +1,5 @@
 import AriVerif.Conc.Pool
+import AriVerif.Conc.PoolLemmas
 /-!
 # C04 — every Metadata request is answered once and dispatched once
 
@@ -17,46 +18,67 @@ def PReach (n : Nat) (s : PState) : Prop := ∃ acts, prun { n := n } acts = som
 def PPc.isDone : PPc → Bool | .done => true | _ => false
 def PPc.isActive : PPc → Bool | .inPool => false | .done => false | _ => true
 
+theorem PPc.isDone_eq : PPc.isDone = pcDone := by funext p; cases p <;> rfl
+theorem PPc.isActive_eq : PPc.isActive = pcActive := by funext p; cases p <;> rfl
+
+theorem PReach.inv {n : Nat} {s : PState} (h : PReach n s) : PInv s := PInv.reach h
+
 /-- **C04 (exactly one outcome per request, never both, never twice).** In every reachable state every task
     has produced nothing yet, or — exactly when it is finished — exactly one of {one reply, one
     exception-handler notification}. -/
 theorem c04_once (n : Nat) (s : PState) (h : PReach n s) :
     ∀ t ∈ s.tasks, (t.pc.isDone = false → t.replied = 0 ∧ t.notified = 0) ∧
                    (t.pc.isDone = true → t.replied + t.notified = 1) := by
-  sorry
+  intro t ht
+  obtain ⟨k, hk⟩ := List.mem_iff_getElem?.mp ht
+  have ok := h.inv.ok k t hk
+  rw [PPc.isDone_eq]
+  exact ⟨ok.notDone, ok.done⟩
 
 /-- **C04 (the reply is the closure's result for this request).** The line a task is about to enqueue is its
     own request id followed by the result of its closure on the outcomes its own adapter calls returned. -/
 theorem c04_reply_is_result (n : Nat) (s : PState) (h : PReach n s) :
     ∀ t ∈ s.tasks, ∀ line, t.pc = .put line →
       ∃ body, taskNext t = .inr (.reply body) ∧ line = t.rid ++ "|" ++ body := by
-  sorry
+  intro t ht
+  obtain ⟨k, hk⟩ := List.mem_iff_getElem?.mp ht
+  exact (h.inv.ok k t hk).put
 
 /-- **C04 (the handler is notified only for a value of an unsupported type).** A task ends with a handler
     notification only when its closure, run on the outcomes received, does not produce a reply line. -/
 theorem c04_notified_only_without_reply (s s' : PState) (k : Nat) (t : PTask) (effs : List PEff)
     (h : advance s k t = (s', effs)) (hn : PEff.handlerExc ∈ effs) :
     ∀ body, taskNext t ≠ .inr (.reply body) := by
-  sorry
+  rcases advance_cases s k t with ⟨c, _, he⟩ | ⟨line, _, he⟩ | ⟨hnr, _, _⟩
+  · rw [he] at h; cases h; cases hn
+  · rw [he] at h; cases h; cases hn
+  · exact hnr
 
 /-- **C04 (adapter calls are the closure's).** The call a task is about to make / is making is the next call
     of `metaExec` given the outcomes received so far. -/
 theorem c04_call_is_next (n : Nat) (s : PState) (h : PReach n s) :
     ∀ t ∈ s.tasks, ∀ c, (t.pc = .callBegin c → taskNext t = .inl c) ∧
       (t.pc = .inCall c → taskNext t = .inl c) := by
-  sorry
+  intro t ht c
+  obtain ⟨k, hk⟩ := List.mem_iff_getElem?.mp ht
+  have ok := h.inv.ok k t hk
+  exact ⟨ok.callBegin c, ok.inCall c⟩
 
 /-- **C04 (isolation).** A step of one task leaves every other task untouched: replies never cross. -/
 theorem c04_isolation (s s' : PState) (a : PAct) (effs : List PEff) (k j : Nat) (h : pstep s a = some (s', effs))
     (ha : a = .start k ∨ a = .callBegin k ∨ (∃ o, a = .callEnd k o) ∨ a = .put k)
     (hj : j ≠ k) : s'.tasks[j]? = s.tasks[j]? := by
-  sorry
+  rcases pstep_cases s s' a effs h with ⟨rid, m, args, rfl, -⟩ | ⟨k', t0, t1, st, ha'⟩
+  · rcases ha with ha | ha | ⟨o, ha⟩ | ha <;> cases ha
+  · have hk : k' = k := by
+      rcases ha with rfl | rfl | ⟨o, rfl⟩ | rfl <;> rcases ha' with h' | h' | ⟨o', h'⟩ | h' <;> cases h' <;> rfl
+    subst hk
+    rw [st.tasks, List.getElem?_set_ne (fun e => hj e.symm)]
 
 /-- **C04 (every finished task's reply is in the queue exactly when it replied).** The outbound sequence
     has as many lines as tasks that replied. -/
 theorem c04_out_count (n : Nat) (s : PState) (h : PReach n s) :
-    s.out.length = (s.tasks.map (·.replied)).sum := by
-  sorry
+    s.out.length = (s.tasks.map (·.replied)).sum := h.inv.out
 
 /-- no deadlock inside the pool: an unfinished started task always has an enabled step of its own, except
     while it is inside an adapter call (the adapter decides when it returns). -/
@@ -64,6 +86,9 @@ theorem c04_progress (s : PState) (k : Nat) (t : PTask) (ht : s.tasks[k]? = some
     (∀ c, t.pc = .callBegin c → (pstep s (.callBegin k)).isSome) ∧
     (∀ l, t.pc = .put l → (pstep s (.put k)).isSome) ∧
     (∀ c o, t.pc = .inCall c → (pstep s (.callEnd k o)).isSome) := by
-  sorry
+  refine ⟨?_, ?_, ?_⟩
+  · intro c hp; simp [pstep, ht, hp]
+  · intro l hp; simp [pstep, ht, hp]
+  · intro c o hp; simp [pstep, ht, hp]
 
 end Ari.Conc
